@@ -127,7 +127,7 @@ def mk_low_rank_root(sign, padded):
     it.call_contracts["power_iteration"] = power_iteration_contract
     rank = r if sign > 0 else -r
     eps = spec.fresh_real("ridge_epsilon")
-    ctx.assume(eps > 0)
+    ctx.assume(eps >= 0)      # matrix_epsilon = 0 is an accepted configuration
     n_red = len(ctx.ghost.setdefault("reduce_calls", []))
     packed, metrics = m._low_rank_root(A, p, rank, ridge_epsilon=eps, relative_matrix_epsilon=False, padding_start=ps)
     V, ie, c, hz = m._low_rank_unpack(packed, rank)
@@ -141,7 +141,8 @@ def mk_low_rank_root(sign, padded):
 
     def root_value(j):
       ej = e_masked(j)
-      return sym.ite(ej == 0, 0.0, sym.spow(sym.smax(ej, eps), -1.0 / p))
+      # finite by construction: an eigenvalue whose clamped value is not positive (no ridge, singular input) has root value 0
+      return sym.ite(sym.sor(ej == 0, sym.smax(ej, eps) <= 0), 0.0, sym.spow(sym.smax(ej, eps), -1.0 / p))
 
     def source(t):   # position t after the flip / roll  ->  ascending eigh index
       if sign > 0:
@@ -270,7 +271,7 @@ def mk_flagged_fp(shape, sign):
 
 
 def tasks(tier):
-  shapes = [(4,), (4, 2), (2, 4)] if tier == "quick" else [(4,), (4, 2), (2, 4), (4, 4), (2, 4, 2)]
+  shapes = [(4,), (4, 2), (2, 4), (2, 4, 2)] if tier == "quick" else [(4,), (4, 2), (2, 4), (4, 4), (2, 4, 2)]
   return [Task(f"compressed application[shape={sh},sign={s_}]", mk_apply(sh, s_))
           for sh in shapes for s_ in (1, -1)] + [Task(f"_low_rank_root[sign={s_},padded={pd}]", mk_low_rank_root(s_, pd))
           for s_ in (1, -1) for pd in (True, False)] + [Task("pack/unpack[r>0]", mk_pack(+1)), Task("pack/unpack[r<0]", mk_pack(-1)),
